@@ -263,7 +263,26 @@ func (ex *Exec) alloc(st *State, hint string) string {
 	ex.vc.assume("(> " + r + " " + ex.get(st, "alloc") + ")")
 	ex.vc.assume("(> " + r + " 0)")
 	st.vars["alloc"] = r
+	if ex.freshRefs == nil {
+		ex.freshRefs = map[string]bool{}
+	}
+	ex.freshRefs[r] = true
 	return r
+}
+
+// guardCheck (lock-check mode): an access to a field declared "guarded" needs the object's mutex, unless the
+// object was allocated by the function being verified (not yet shared).
+func (fr *Frame) guardCheck(ins ssa.Instruction, st, f, ref, how string) {
+	ex := fr.ex
+	if !ex.lockCheck || ex.cs == nil {
+		return
+	}
+	gd := ex.cs.Guards[st+"."+f]
+	if gd == nil || gd.Kind != "guarded" || ex.freshRefs[ref] {
+		return
+	}
+	h := ex.get(fr.cur, fr.ghost("held"))
+	ex.vc.oblige("guard", ex.oblName(fmt.Sprintf("%s/guard@%s.%s:%s", fr.key, st, f, how)), fr.curReach, "(select "+h+" "+ref+")", "the mutex of the object is held when "+st+"."+f+" is accessed ("+how+")", ex.posOf(ins.Pos()), nil)
 }
 
 // assumeAllocated states that a reference read from the heap is not above the allocation top.
@@ -518,6 +537,9 @@ func (fr *Frame) execInstr(ins ssa.Instruction) {
 			}
 			fr.safety("nil-elem", ins, "(forall ((q_k Int)) (=> (and (<= 0 q_k) (< q_k "+sqLen(v.T, el)+")) "+nn+"))", "elements of "+a.Ptr.Struct+"."+a.Ptr.Field)
 		}
+		if a.Ptr.Kind == "field" {
+			fr.guardCheck(ins, a.Ptr.Struct, a.Ptr.Field, a.Ptr.Ref, "store")
+		}
 		if v.Borrow != nil && (a.Ptr.Kind == "field" || a.Ptr.Kind == "global" || a.Ptr.Kind == "index") {
 			fr.ownBytes(ins, v, "stored in the heap")
 		}
@@ -557,6 +579,9 @@ func (fr *Frame) execInstr(ins ssa.Instruction) {
 				}
 				if x.Ptr.LibErr {
 					vc.assume(not(eq(v.T, "anyNil")))
+				}
+				if x.Ptr.Kind == "field" {
+					fr.guardCheck(ins, x.Ptr.Struct, x.Ptr.Field, x.Ptr.Ref, "load")
 				}
 				if ex.safety && s.K == KAny && x.Ptr.Kind == "field" && ex.strongIface(ex.fieldGoType(x.Ptr.Struct, x.Ptr.Field)) {
 					vc.assume(wfIface(v.T))
